@@ -171,6 +171,12 @@ type attempt struct {
 	initial  bool   // upload on a chain without any live snapshot (first deployment)
 	expKey   string // snapshot id / contract id / author+id the success effects would carry
 
+	// shape of call data that does not match (observation only): the reference encoding with
+	// `inserted` foreign bytes inside it at offset insertedAt; betweenParts: contract creation whose
+	// data still starts with the bytecode and still ends with the expected constructor arguments
+	inserted, insertedAt int
+	betweenParts         bool
+
 	gas        uint64
 	assignee   *chain.Account
 	signers    []int
@@ -227,6 +233,12 @@ func (a *attempt) witness(w *wd, extra map[string]any) map[string]any {
 		"calldata_matches_reference_encoding": a.matches, "matching_prefix": a.prefix, "receipt_ok": a.rcOK,
 		"tx_hash": a.tx.Hash().Hex(), "tx_previously_accepted_for": w.accepted[a.tx.Hash()], "height": w.c.Height,
 		"history_tail": tail(w.history, 12),
+	}
+	if a.inserted > 0 {
+		m["calldata_shape"] = fmt.Sprintf("the reference encoding of the message with %d foreign byte(s) inserted at offset %d (every byte before and after them is the encoding's)", a.inserted, a.insertedAt)
+		if a.betweenParts {
+			m["calldata_shape"] = fmt.Sprintf("bytecode ++ %d foreign byte(s) ++ the constructor arguments of the message (the data starts with the bytecode and ends with the expected constructor input)", a.inserted)
+		}
 	}
 	if a.Dissent != "" {
 		when := map[string]string{dissentLast: "after the majority's evidence (same block)", dissentFirst: "before the majority's evidence (same block)", dissentEarlier: "one block before the majority's evidence"}[a.Dissent]
@@ -333,6 +345,14 @@ func (w *wd) judge(events []event, logs []chain.LogLine, what string) {
 			if a.Reuse != "" && a.matches {
 				// the used tx carries exactly the call data of this second message
 				rec.Count("rounds_reused_tx_identical_calldata/"+a.Action, 1)
+			}
+			if a.inserted > 0 && !a.matches {
+				// every byte of the faithful encoding is there, in order, with foreign bytes inside
+				rec.Count("rounds_calldata_with_inserted_bytes", 1)
+				rec.Count("rounds_calldata_with_inserted_bytes/"+a.Action, 1)
+				if a.betweenParts {
+					rec.Count("rounds_upload_bytes_inserted_between_bytecode_and_constructor_args", 1)
+				}
 			}
 			if a.Dissent != "" {
 				rec.Count("rounds_conflicting_receipts/minority-"+a.Dissent, 1)
